@@ -30,6 +30,9 @@ def plan(tier):
     if not q:
         I.append(inst("intersect[RP3 plane^plane]", 'harness.c16', 'intersect', dict(n=4, k1=3, k2=3), weight=300, timeout_s=2400, opts=dict(max_vars=64)))
         I.append(inst("intersect[RP3 line^plane]", 'harness.c16', 'intersect', dict(n=4, k1=2, k2=3), weight=200, timeout_s=2400, opts=dict(max_vars=64)))
+    for d in ([2] if q else [2, 3]):
+        for w in ('eigenvector', 'any', 'missing', 'diagonalize'):
+            I.append(inst(f"eigen[{w},d={d}]", 'harness.c16', 'eigen', dict(d=d, which=w), weight=10 * d * d, timeout_s=1500, opts=dict(max_paths=2048)))
     return dict(
         instances=I,
         explanation=("bounded symbolic verification: projective.projective_coords / affine_coords / Point.in_affine_chart / affine_linear_map / "
@@ -39,7 +42,7 @@ def plan(tier):
                      "Subspace.intersect's SVD null-space call is a nondeterministic stub (arbitrary basis K0*T, T fresh invertible)"),
         bounds=dict(dimensions=dims, complex_dimensions="<=2 (quick) / <=3 (thorough)", charts="all", layouts="row and column vectors; composite shape (2,)",
                     intersect="RP^2 line/line elementwise + pairwise (quick); RP^3 plane/plane, line/plane (thorough)"),
-        outside=["hyperplane_coordinate_transform / find_definite_isometry (np.linalg.qr has no model)", "eigenvector / diagonalize (see the eig-stub instances when present)",
+        outside=["hyperplane_coordinate_transform / find_definite_isometry (np.linalg.qr has no model)", "eigenvector / diagonalize for composite transformations (the eigen stub is unit-only; unit transformations with simple spectrum are covered)",
                  "automatic chart selection (chart_index=None)"],
         assumptions=["rescaling factor != 0", "spanning sets linearly independent and subspaces transverse (documented precondition of intersect)"],
     )
